@@ -63,7 +63,10 @@ def header_arrays_for(desc, grid, rng_seed):
         cand = [(1, np.arange(1, grid + 1)), (5, np.arange(grid) * 2 + 7)]
     extra = [73, 77, 21, 181, 185, 41, 225]
     for k in extra:
-        cand.append((k, r.integers(-2 ** 31, 2 ** 31 - 1, size=grid)))
+        a = r.integers(-2 ** 31, 2 ** 31 - 1, size=grid)
+        if k == 73:
+            a = np.where(r.random(grid) < 0.5, 0, a)      # a shared array (see dups) holding zeros at many traces
+        cand.append((k, a))
     for k, a in cand[:narr]:
         arrays[k] = np.asarray(a, dtype=np.int64)
     return arrays
@@ -85,6 +88,7 @@ def build(desc, scratch, name='in.sgz'):
         dups = {}
         if 73 in arrays:
             dups[185] = 73 if 185 not in arrays else None
+            dups[81] = 73
             dups = {k: v for k, v in dups.items() if v}
         tracecount, pad_mode = None, 'edge'
         if desc.get('holes'):
